@@ -79,6 +79,16 @@ const MUST: &[&str] = &[
     "oor.skip", "oor.split", "oor.truncate",
 ];
 
+fn gcd(a: u64, b: u64) -> u64 {
+    let (mut a, mut b) = (a, b);
+    while b != 0 {
+        let t = a % b;
+        a = b;
+        b = t;
+    }
+    a
+}
+
 fn subrange_ops() -> u64 {
     gimli::verif::get(&gimli::verif::SUBRANGE_OPS)
 }
@@ -170,8 +180,11 @@ fn run_exhaustive(ctx: &mut Ctx) {
     let bufs = model::exhaustive_buffers(&mut r);
     let per = model::exhaustive_count();
     let total = per * bufs.len() as u64 * 2;
-    // Miri: a thin slice only
-    let stride = if ctx.profile == Profile::Miri { 997 } else { 1 };
+    // Miri: a thin slice only (about 60 histories per shard)
+    let mut stride = if ctx.profile == Profile::Miri { (total / (60 * ctx.nshards)).max(1) | 1 } else { 1 };
+    while stride > 1 && gcd(stride, ctx.nshards) != 1 {
+        stride += 2;
+    }
     let mut i = 0u64;
     while i < total {
         if ctx.want("exh", i) {
@@ -186,7 +199,11 @@ fn run_exhaustive(ctx: &mut Ctx) {
 }
 
 fn run_random(ctx: &mut Ctx) {
-    let n = ctx.size(160_000, 3_000_000, 8);
+    let n = match ctx.profile {
+        // "a few hundred histories per shard"
+        Profile::Miri => (if ctx.quick() { 200 } else { 400 }) * ctx.nshards,
+        _ => ctx.size(160_000, 1_600_000, 8),
+    };
     for i in 0..n {
         if !ctx.want("hist", i) {
             continue;
@@ -200,7 +217,10 @@ fn run_random(ctx: &mut Ctx) {
 }
 
 fn run_threads(ctx: &mut Ctx) {
-    let n = ctx.size(600, 6_000, 4).max(if ctx.profile == Profile::Miri { 8 } else { 1 });
+    let n = match ctx.profile {
+        Profile::Miri => 6 * ctx.nshards,
+        _ => ctx.size(600, 6_000, 4),
+    };
     for i in 0..n {
         if !ctx.want("threads", i) {
             continue;
